@@ -357,8 +357,23 @@ def _export_jobs(jobs, path, copytree):
     # Determine export path for each job.
     paths = {job.path: path_function(job) for job in jobs}
 
+    # The checks are made on normalized paths: 'x' and 'x/' or 'a/./b' and 'a/b'
+    # are the same place, and a path must not leave the export target.
+    normalized = [os.path.normpath(dst) if dst else dst for dst in paths.values()]
+    for dst, norm in zip(paths.values(), normalized):
+        if (
+            os.path.isabs(norm)
+            or norm == os.pardir
+            or norm.startswith(os.pardir + os.path.sep)
+        ):
+            raise RuntimeError(f"The path '{dst}' leaves the export target.")
+    if len(set(normalized)) != len(normalized):
+        raise RuntimeError(
+            "The path specification would result in duplicate paths after normalization."
+        )
+
     # Check leaf/node consistency
-    _check_directory_structure_validity(paths.values())
+    _check_directory_structure_validity(normalized)
 
     for src, dst in paths.items():
         copytree(src, dst)
